@@ -117,16 +117,16 @@ func vh_SRV() {
 	}
 	vAssert(post.term >= mid.term, "C08.termMono")
 	vAssert(vAnd(post.durTerm == post.term, post.durVote == post.votedFor), "C02|C08.persisted(N3)")
-	vAssert(vImplies(vAnd(post.term == mid.term, mid.votedFor != ""), post.votedFor == mid.votedFor), "C02|C08.vote-stable(G2)")
+	vAssert(vImplies(vAnd(post.term == mid.term, mid.votedFor != ""), post.votedFor == mid.votedFor), "C01|C02|C07|C08.vote-stable(G2)")
 	vAssert(vOr(votes == votes0, votes == votes0+1), "C02.counter-grows-by-at-most-one")
-	vAssert(vImplies(votes == votes0+1, vAnd(resp.VoteGranted, mid.term <= sent.Term)), "C02.only-granted-current-replies-count")
+	vAssert(vImplies(votes == votes0+1, vAnd(resp.VoteGranted, mid.term <= sent.Term)), "C01|C02|C07.only-granted-current-replies-count")
 	// ---- winning
 	if post.state == Leader && mid.state != Leader {
 		vCover("became-leader")
 		vAssert(!prevote, "C02.prevotes-never-elect")
-		vAssert(vAnd(post.term == sent.Term, post.term == mid.term), "C02.leader-of-the-term-votes-were-requested-for")
+		vAssert(vAnd(post.term == sent.Term, post.term == mid.term), "C01|C02|C07.leader-of-the-term-votes-were-requested-for")
 		vAssert(vAnd(post.votedFor == "n1", post.durVote == "n1"), "C02|C08.leader-voted-for-itself")
-		vAssert(2*votes > nv, "C02|C09.leader-needs-majority-of-voters")
+		vAssert(2*votes > nv, "C01|C02|C07|C09.leader-needs-majority-of-voters")
 		// C07.appendOnly / C15.noop: leadership starts with one no-op entry of the new term, nothing rewritten,
 		// and replication restarts right after the old end of the log
 		vAssert(post.logLen == mid.logLen+1, "C07|C15.new-leader-appends-exactly-one-entry")
